@@ -117,6 +117,8 @@ PROFILES = {
     "C16": [("c16", {}), ("random", {"fam": {"p_async": 0.5, "weak": 0.2}})],
 }
 SEEDS = {"quick": 700, "thorough": 12000}
+SUITE_PROPS = ("C01", "C02", "C03", "C05", "C07", "C10")
+SUITE_SEEDS = {"quick": 35, "thorough": 175}
 
 ASSUMPTIONS = [
     "simulators are the harness's scripted asynchronous proxies (API-compliant unless the family injects a fault); the reply order is controlled, not timed",
@@ -135,6 +137,16 @@ def run(prop, tier, seed, model_part=None):
     for gi, (gname, gkw) in enumerate(PROFILES[prop]):
         lo = base + gi * 500_000
         pairs += explore.run_generated(gname, gkw, (lo, lo + n))
+    # the repository's own scenarios (tests/scenarios/*.create_scenario, with the suite's simulators) under controlled schedules
+    nsuite = 0
+    if prop in SUITE_PROPS:
+        ns = SUITE_SEEDS[tier]
+        sp = explore.run_generated("suite", {"nsched": 2 if tier == "quick" else 10, "lazy": (True,) if prop == "C10" else (True, False)}, (base % 1000, base % 1000 + ns))
+        sp = [(c, r) for c, r in sp if r["outcome"].get("phase") != "build"]
+        for c, r in sp:
+            c["scn"] = r.pop("scn")
+        nsuite = len(sp)
+        pairs += sp
     cov_model = {}
     extra_pairs = []
     if model_part is not None:
@@ -153,6 +165,7 @@ def run(prop, tier, seed, model_part=None):
         "exhaustive": False,
         "breakdown": {
             "directed_cases": ndirected,
+            "suite_scenario_executions": nsuite,
             "replayed_model_behaviours": len(extra_pairs),
             "trace_validation_states": st["monitor"]["states"],
             "model": cov_model,
